@@ -1,8 +1,53 @@
 import KafVerif.Model.KafkaDriver
+import KafVerif.Model.KafkaAlloc
 open KafVerif KafVerif.Kafka
 
-/-- `lean --run Driver/C34.lean`: every line carries its own `@variant` (root | iceberg | sql | …_old) -/
+/-- total bytes requested by the `make`s of the op, by the instrumented model (`Model/KafkaAlloc.lean`);
+`none` for ops without an instrumented counterpart -/
+def allocOf (d : DriverCfg) (ws : List String) : Option Nat :=
+  match ws with
+  | ["dec", hx] =>
+    match fromHex hx, cfgOf d.variant with
+    | some b, some c => some (decodeSegmentA d.alloc c b).cost
+    | _, _ => none
+  | ["didx", hx] =>
+    match fromHex hx with
+    | none => none
+    | some b =>
+      if d.variant = "iceberg" then some (parseIndexIcebergA d.alloc true b).cost
+      else if d.variant = "iceberg_old" then some (parseIndexIcebergA d.alloc false b).cost
+      else if d.variant = "sql" then some (parseIndexSqlA d.alloc true b).cost
+      else some (parseIndexSqlA d.alloc false b).cost
+  | ["pidx", hx] => (fromHex hx).map fun b => (parseIndexRootA d.alloc b).cost
+  | ["collect", cut, hx] =>
+    match cut.toInt?, fromHex hx with
+    | some c, some b => some (collectRecoverableA d.crc d.alloc b c).cost
+    | _, _ => none
+  | ["plan", rs, cr, shx, ihx] =>
+    match rs.toInt?, cr.toInt?, fromHex shx, fromHex ihx with
+    | some r, some c, some s, some i => some (buildRestorePlanA d.crc d.alloc s i r c).cost
+    | _, _, _, _ => none
+  | _ => none
+
+/-- the constants of the total-allocation theorems (`KafVerif.C34.*_total_alloc`), for the allocation monitor -/
+def boundsLine : String :=
+  s!"bounds decode={allocDecodeA},{allocDecodeB} pidx={allocIndexRootA},{allocIndexB} didx={allocIndexProcA},{allocIndexB} " ++
+  s!"collect={allocCollectA},{allocCollectB}"
+
+def step34 (d : DriverCfg) (ws : List String) : String :=
+  match ws with
+  | ["allocbounds"] => boundsLine
+  | w :: rest =>
+    let (d', ws') := if w.startsWith "@" then ({ d with variant := (w.drop 1).toString }, rest) else (d, ws)
+    let line := kafkaStep1 d' ws'
+    match allocOf d' ws' with
+    | some n => line ++ s!" #malloc={n}"
+    | none => line
+  | [] => "bad-op"
+
+/-- `lean --run Driver/C34.lean`: every line carries its own `@variant` (root | iceberg | sql | …_old);
+ops with an instrumented model get the suffix ` #malloc=N` (bytes requested by the model's `make`s) -/
 def main (args : List String) : IO Unit := do
   let tab := crcTable
   let d : DriverCfg := ⟨args.headD "root", crc32cWith tab, goMakeLim AllocMax⟩
-  runLines () fun _ ws => ((), kafkaStep d ws)
+  runLines () fun _ ws => ((), step34 d ws)
